@@ -11,7 +11,7 @@
     of revision 0 and a head of revision 1.  Then a consensus state whose revision height is ABOVE the head
     passed the head gate (0 < 1) and the delay gate (the subtraction wraps to almost 2^64). *)
 From Teleport Require Import Base.Bytes Base.Outcome Model.EvmProof Model.EvmProofCheck Model.EvmProofWitness
-     Proofs.EvmProofRlp Proofs.EvmProof.
+     Model.EvmProofMpt Proofs.EvmProofRlp Proofs.EvmProof Proofs.EvmProofDelay Proofs.EvmProofMpt.
 Local Open Scope N_scope.
 
 (** For ALL oracles: any proof the old code accepted at height [h] stayed accepted under ANY head of a
@@ -70,3 +70,30 @@ Proof.
   - rewrite EH in V. apply verify_gen_ok_iff in V. destruct V as (? & ? & _ & E & _). discriminate.
 Qed.
 Print Assumptions C08_numeric_gate_refuted.
+
+(** [GetDelayTime] of the BSC client is a uint64 product that can wrap: with 2 validators (depth 2) and a block
+    interval of 2^63 the delay time is 0.  (Not used by the proof verification of these clients -- it is the
+    Tendermint client that checks a time delay -- so this is an observation, not a finding of C08.) *)
+Theorem C08_bsc_delay_time_wraps_refuted :
+  ~ (forall n iv, n < 2 ^ 63 -> iv < two64 -> iv <= delay_time BSC n iv 0).
+Proof.
+  intro H. destruct Proofs.EvmProofDelay.bsc_delay_time_wraps as (n & iv & L & B & W).
+  specialize (H n iv L B). lia.
+Qed.
+Print Assumptions C08_bsc_delay_time_wraps_refuted.
+
+(** "A ... padded ... proof is rejected" (property text), read literally -- every proof with surplus nodes is
+    rejected -- is FALSE of the code: go-ethereum turns the node list into a hash-keyed set, so for ALL Keccak
+    functions, client states, stores and paths, appending ANY nodes to the account-proof list and to the
+    storage-proof list of an accepted proof gives an accepted proof.  Observed on the real code on every run
+    (generator families acct-nodes-padded / storage-nodes-padded).  This is malleability of the encoding of a TRUE
+    claim, not a soundness hole: what is proved instead is that no proof -- padded, truncated or otherwise
+    mutated -- of a FALSE claim is accepted (Props/C08.v: C08_false_claim_rejected_mpt,
+    C08_accepted_value_unique_mpt). *)
+Theorem C08_padded_proof_rejected_refuted :
+  forall keccak256 json_proof cs cstore h p p' r extra_acct extra_st ack src dst seq c,
+  verify keccak256 (mpt_verify_g keccak256) json_proof cs cstore (Some h) (Some p) ack src dst seq c = Ok tt ->
+  json_proof p = Some r -> json_proof p' = Some (pad_record r extra_acct extra_st) ->
+  verify keccak256 (mpt_verify_g keccak256) json_proof cs cstore (Some h) (Some p') ack src dst seq c = Ok tt.
+Proof. exact padded_still_accepted. Qed.
+Print Assumptions C08_padded_proof_rejected_refuted.
